@@ -23,7 +23,7 @@ def add(prop, engine, text, note, technique, design_ref):
 MC = "explicit-state model checking of the implementation (BFS over real objects, canonical-state de-duplication, all events per state)"
 
 add("C03", "E1-explore",
-    "Exhaustive bounded exploration of the real implementation: every user action with every argument tuple of the alphabet (all ordered node pairs in both temporal orders, all frames, all track ids, force on/off, paint strokes) is fired in every distinct state reachable within the depth bound from the hand seeds and from all labelled forests up to the size bound; the forest invariant is checked on every post-state and after undo/redo, the refusal/force oracle on every transition.",
+    "Exhaustive bounded exploration of the real implementation: every user action with every argument tuple of the alphabet (all ordered node pairs in both temporal orders, all frames, all track ids, force on/off, paint strokes) is fired in every distinct state reachable within the depth bound from the hand seeds and from all labelled forests up to the size bound; the forest invariant is checked on every post-state and after undo/redo, the refusal/force oracle on every transition. In addition all call sequences over the C02 menus and a 5-item menu up to length 7 (quick) / 9 (thorough) are run with the invariant evaluated after every undo/redo (a timeline replayed in the wrong order creates a merge).",
     "Bounded: <=6 seed nodes, all forests <=4 (quick) / <=5 (thorough) nodes, 4 frames, BFS depth 2-3. networkx/numpy trusted.",
     MC, "DESIGN.md 4 C03")
 
@@ -34,10 +34,10 @@ add("C01", "E1-explore",
     E1NOTE + " History route (tracks.undo/redo) is used, which calls action.inverse() / inverse().inverse() on the stored action objects.",
     MC, "DESIGN.md 4 C01")
 add("C04", "E1-explore",
-    "On every state reachable in the bounded space and after every undo/redo the partition induced by track ids is compared with an independent recomputation of maximal unbranched segments; on every transition the frame clause (ids in untouched components unchanged) is checked; the constructor clause is checked on every forest seed.",
+    "On every state reachable in the bounded space and after every undo/redo the partition induced by track ids is compared with an independent recomputation of maximal unbranched segments; on every transition the frame clause (ids in untouched components unchanged) is checked; the constructor clause is checked on every forest through every way of obtaining a SolutionTracks (ids computed, valid ids given and kept, Tracks -> from_tracks with / without / with partial ids); the invariant is re-evaluated after every undo/redo of all call sequences of the C02 menus (E2).",
     E1NOTE, MC, "DESIGN.md 4 C04")
 add("C05", "E1-explore",
-    "Same exploration as C04 with the lineage partition compared with weakly connected components (independent networkx undirected recomputation) and the lineage frame clause on every transition.",
+    "Same exploration as C04 (BFS, E2 undo/redo sequences, constructor variants incl. zero-based lineage ids) with the lineage partition compared with weakly connected components (independent networkx undirected recomputation) and the lineage frame clause on every transition.",
     E1NOTE, MC, "DESIGN.md 4 C05")
 add("C06", "E1-explore",
     "On every reachable state and after every undo/redo: both lookups vs a scan of the graph (keys, no empty/duplicate/stale entries), freshness of next track/lineage/node ids, and get_track_neighbors / has_track_id_at_time for every used and unused id and every t in -1..T vs a linear scan.",
@@ -47,7 +47,7 @@ add("C11", "E1-explore",
     E1NOTE + " For paint the driver restores the painted pixels first (the property's proviso).",
     MC, "DESIGN.md 4 C11")
 add("C20", "E1-explore",
-    "A counting callback on tracks.refresh is read around every call in the bounded space: accepted top-level action / successful undo / redo = exactly one emission (payload = new node for add-node and node-creating paint), refused action = none. Nested composite actions are covered through forced add-edge/add-node, swap and paint events.",
+    "A counting callback on tracks.refresh is read around every call in the bounded space: accepted top-level action / successful undo / redo = exactly one emission (payload = new node for add-node and node-creating paint), refused action = none. Nested composite actions are covered through forced add-edge/add-node, swap and paint events (incl. a stroke that changes nothing). All call sequences of the C02 menus are also run with the counter read on every call: an emission from an undo/redo for which the timeline has nothing to step to is a violation whatever the call returns.",
     E1NOTE, MC, "DESIGN.md 4 C20")
 
 SEGNOTE = "Bounded: 6-7 hand seeds with rectangular masks in 4 frames of 4x6 (2D) / 2x4x6 (3D) pixels, stroke menu of DESIGN.md 3.2 (inside / whole / straddling / two masks / background x erase / every label of the frame / new label x track ids x force), BFS depth 1-3. skimage.regionprops trusted."
@@ -61,10 +61,10 @@ add("C07", "E1-explore",
     "In segmentation worlds (2D+t and 3D+t) every reachable state and every state after undo/redo is checked for label<->node one-to-one correspondence (every node labels >=1 pixel and only in its frame, every label is a node, get_pixels exact); every paint/erase transition is checked byte-for-byte against the array as painted by the driver, undo against the pre-paint bytes, redo against the painted bytes.",
     SEGNOTE, MC, "DESIGN.md 4 C07")
 add("C08", "E1-explore",
-    "For every reachable state of segmentation worlds with scale None / isotropic / anisotropic and feature subsets {core, +circularity, +ellipse axes, all regionprops} in 2D and 3D, after every edit, undo and redo: area and position vs an independent numpy reference (count x voxel, scaled mean index), and every enabled regionprops feature vs a from-scratch SolutionTracks built on a copy of the array (exact equality).",
+    "For every reachable state of segmentation worlds with scale None / isotropic / anisotropic and feature subsets {core, +circularity, +ellipse axes, all regionprops} in 2D and 3D, after every edit, undo and redo: area and position vs an independent numpy reference (count x voxel, scaled mean index), and every enabled regionprops feature vs a from-scratch SolutionTracks built on a copy of the array (exact equality). All sequences that switch area / pos / circularity / ellipse axes off and on around mask edits, undo and redo (E2, length 3-4) are held to the same oracles.",
     SEGNOTE + " numpy reference uses rel_tol 1e-12; differential oracle is exact.", MC, "DESIGN.md 4 C08")
 add("C09", "E1-explore",
-    "For every reachable state of segmentation worlds with iou enabled (consecutive-frame and frame-skipping edges with non-trivial overlap), after every edit, undo and redo: stored IoU of every edge vs exact Fraction |A&B|/|A|B| on the array, and incremental value vs bulk value computed by a from-scratch twin with enable_features(['iou']). Enabling iou at any point of a history is covered by the C10 sequences.",
+    "For every reachable state of segmentation worlds with iou enabled (consecutive-frame and frame-skipping edges with non-trivial overlap), after every edit, undo and redo: stored IoU of every edge vs exact Fraction |A&B|/|A|B| on the array, and incremental value vs bulk value computed by a from-scratch twin with enable_features(['iou']). Enabling iou at any point of a history: all sequences over {enable, disable, strokes incl. one that makes an overlap exactly 0, add/delete node, undo, redo} up to length 3-4 (E2) are held to the same oracle.",
     SEGNOTE, MC, "DESIGN.md 4 C09")
 add("C10", "E2-histories",
     "All sequences up to length 3-4 (quick) / 4-5 (thorough) over {enable(F), disable(F), enable/disable(unknown, also listed after a valid key), edits, protected set-attr, undo, redo} on segmentation and non-segmentation tracks built with and without a pre-built FeatureDict, in lock step with a set model (static + enabled). After every call: registry == static+enabled, annotator active set == enabled, all values of every enabled feature equal the C04/C05/C06/C08/C09 reference oracles, raw values of disabled features unchanged by edits, unknown key -> KeyError and identical snapshot, managed attributes and time refused by set-attr whether enabled or not.",
